@@ -30,7 +30,11 @@ RULE = ("E4: outline template with the 6 placeholder positions {name, step name,
         "text inside a BLOCK tag, which must stay as written}, block name {plain 'Ex one'/empty, 'E-<a>', '<a><b>', 'N<row.id>-<zz>', '<b> of <examples.index>'} rendered per "
         "row from the block's own template, the documented special placeholders <examples.name> <examples.index> "
         "<row.index> <row.id> appended to outline name, step name and tags (slot 'special'), cell values {x, '', ue-umlaut, b (the OTHER column's name as plain "
-        "text), 'x y'}, annotation schema {default, '{name} [{row.id}]', '{name}'}. Deviation = a non-'x' cell, a "
+        "text), 'x y'}, annotation schema {default, '{name} [{row.id}]', '{name}'}. Decorations of one step are COMBINED (slot 'combo': doc-string then table on the same step, table "
+        "then doc-string, EMPTY doc-string + table; crossed with the DOC / THEAD / TCELL mask bits = placeholders in "
+        "doc only, table heading / cell only, both) and a feature BACKGROUND step with doc-string + table (slot "
+        "'bg': parametrised step name -> rendered per row; plain name -> untouched or rendered accepted). "
+        "Deviation = a combo, a background, a non-'x' cell, a "
         "(b,a) block, a tagged block, a templated block name, the special slot, a non-default schema. quick: all 64 masks x all shapes x <=1 deviation (block-name / special-placeholder / "
         "exotic-block-tag deviations on the 8 masks {none, each single position, all} only), full mask "
         "x <=2 deviations; thorough: all masks x <=2, full mask x <=3, and full mask x ALL value/order/tag/schema "
@@ -58,6 +62,8 @@ ASSUMPTIONS = [
     "cell values containing '<' or '>' are excluded (sequential vs simultaneous substitution differ only there)",
     "tag-position values are tag-safe after the documented Tag.make_name normalisation (blank -> '_'), which the oracle applies",
     "special placeholders are demanded where behave documents them (outline name, step names, tags, examples name: features/scenario_outline.parametrized.feature, docs/new_and_noteworthy_v1.2.5); none is placed in doc-strings or step tables",
+    "a background whose step NAME carries a placeholder is rendered per row by the builder: demanded then is the same substitution as for outline steps (name, doc-string, table); with a plain step name the statement is silent and both the untouched and the rendered background are accepted",
+    "parsed route: if the parser does not deliver a template step as written, that is reported as subcheck 'template-parse' (a parsing matter, C04 territory) and the expansion is judged against the template as parsed",
     "generated scenario name = annotation schema applied to the substituted outline name, row id 'B.R' (1-based block.row) and the examples name",
     "tags are compared as multisets (the statement does not order them); examples-block tags are compared by exact text",
     "placeholders whose column does not exist are 'text without placeholders': left unchanged; tags still carrying one are dropped (documented)",
@@ -90,13 +96,13 @@ SPECIAL_TAGS = [u"g<examples.index>.<row.index>", u"n_<examples.name>", u"r<row.
 # =============================================================================
 # abstract outline -> template
 # =============================================================================
-def template(mask, cols="ab", special=0):
+def template(mask, cols="ab", special=0, combo=0, bg=0):
     """the outline template as plain data: name, tags, steps [(keyword, name, text|None, table|None)]"""
     def t(bit, on, off):
         return on if mask & bit else off
     if cols == "ab":
         sn, ss, st = (SPECIAL_NAME, SPECIAL_STEP, SPECIAL_TAGS) if special else (u"", u"", [])
-        return {
+        tmpl = {
             "name": t(NAME, u"Out <a>-<b> <zz> <a>", u"Out a-b zz a") + sn,
             "tags": t(TAG, [u"o1", u"t_<a>", u"<b>.u", u"w_<zz>", u"<a><b>"], [u"o1", u"t_a", u"b.u"]) + st,
             "steps": [
@@ -109,6 +115,7 @@ def template(mask, cols="ab", special=0):
                    t(TCELL, [u"b", u"<a> <b>", u"<a>"], [u"b", u"a b", u"a"])])),
             ],
         }
+        return _decorate(tmpl, mask, combo, bg)
     return {       # E2 template: three columns, 'c' initially unknown
         "name": u"Out <a>-<b>-<c> @<row.id> <examples.name>",
         "tags": [u"o1", u"t_<a>", u"u_<c>", u"g<examples.index>.<row.index>"],
@@ -118,6 +125,27 @@ def template(mask, cols="ab", special=0):
             (u"Then", u"a table", None, ([u"h<c>", u"k"], [[u"<a><c>", u"<b>"]])),
         ],
     }
+
+
+def _decorate(tmpl, mask, combo, bg):
+    """decorations of ONE step combined: combo 1 = doc-string then table on the same step, 2 = table then doc-string
+    (order in the document), 3 = EMPTY doc-string + table; bg 1 = feature background whose step has a parametrised
+    name + doc-string + table, bg 2 = background step with a plain name and placeholders in doc-string/table only"""
+    steps = tmpl["steps"]
+    doc, table = steps[1][2], steps[2][3]
+    tmpl["table_first"] = ()
+    if combo in (1, 2):
+        steps[1] = (steps[1][0], steps[1][1], doc, ([u"c" + h for h in table[0]], [list(r) for r in table[1]]))
+        if combo == 2:
+            tmpl["table_first"] = (1,)
+    elif combo == 3:
+        steps[2] = (steps[2][0], steps[2][1], u"", table)
+    if bg:
+        on = lambda bit, a, b: a if mask & bit else b
+        tmpl["bg"] = [(u"Given", u"a background <a>-<b>" if bg == 1 else u"a background plain",
+                       on(DOC, u"bg <b>\n  <a> <zz>", u"bg b\n  a zz"),
+                       (on(THEAD, [u"k<a>", u"j"], [u"ka", u"j"]), [on(TCELL, [u"<b>", u"<a>b"], [u"b", u"ab"])]))]
+    return tmpl
 
 
 def block_model(block, index):
@@ -143,19 +171,36 @@ def render(tmpl, blocks):
     lines = {"examples": [], "rows": []}
     lines["feature"] = emit(u"Feature: F")
     emit(u"")
+
+    def emit_steps(steps, table_first=()):
+        for i, (kw, name, text, table) in enumerate(steps):
+            emit(u"    %s %s" % (kw, name))
+
+            def emit_doc():
+                if text is not None:
+                    emit(u'      """')
+                    for l in (text.split(u"\n") if text else []):
+                        emit(u"      " + l)
+                    emit(u'      """')
+
+            def emit_table():
+                if table is not None:
+                    heads, rows = table
+                    for r in [heads] + rows:
+                        emit(u"      | " + u" | ".join(r) + u" |")
+            if i in table_first:
+                emit_table()
+                emit_doc()
+            else:
+                emit_doc()
+                emit_table()
+    if tmpl.get("bg"):
+        emit(u"  Background:")
+        emit_steps(tmpl["bg"])
+        emit(u"")
     emit(u"  " + u" ".join(u"@" + t for t in tmpl["tags"]))
     lines["outline"] = emit(u"  Scenario Outline: " + tmpl["name"])
-    for kw, name, text, table in tmpl["steps"]:
-        emit(u"    %s %s" % (kw, name))
-        if text is not None:
-            emit(u'      """')
-            for l in text.split(u"\n"):
-                emit(u"      " + l)
-            emit(u'      """')
-        if table is not None:
-            heads, rows = table
-            for r in [heads] + rows:
-                emit(u"      | " + u" | ".join(r) + u" |")
+    emit_steps(tmpl["steps"], tmpl.get("table_first", ()))
     for b in blocks:
         emit(u"")
         if b["tags"]:
@@ -215,8 +260,22 @@ def ref_expand(tmpl, blocks, schema):
                 if table is not None:
                     tb = ([subst(h, row) for h in table[0]], [[subst(c, row) for c in r] for r in table[1]])
                 steps.append((kw, subst(sname, rowsp), None if text is None else subst(text, row), tb))
+            # background steps of the feature: when a background step NAME is parametrised the builder renders the
+            # background per row (every placeholder of the row, everywhere); otherwise the statement is silent and
+            # both the untouched and the rendered background are accepted
+            bg_t = tmpl.get("bg") or []
+            bg_r = []
+            for kw, sname, text, table in bg_t:
+                tb = None
+                if table is not None:
+                    tb = ([subst(h, row) for h in table[0]], [[subst(c, row) for c in r] for r in table[1]])
+                bg_r.append((kw, subst(sname, rowsp), None if text is None else subst(text, row), tb))
+            alts = [bg_r]
+            if not any(_PH.search(st[1]) for st in bg_t):
+                alts.append([(kw, n, tx, None if tb is None else (list(tb[0]), [list(r) for r in tb[1]]))
+                             for kw, n, tx, tb in bg_t])
             out.append({"name": full, "tags": sorted(tags), "btags": list(b["tags"]), "steps": steps, "bi": bi,
-                        "ri": ri})
+                        "ri": ri, "bg_alts": alts})
     return out
 
 
@@ -235,7 +294,7 @@ def snap_steps(steps):
 
 def snap_scenario(s):
     return {"name": u"%s" % s.name, "tags": sorted(u"%s" % t for t in s.tags), "steps": snap_steps(s.steps),
-            "line": s.line}
+            "line": s.line, "bg": snap_steps(s.background_steps)}
 
 
 def snap_template(outline):
@@ -244,7 +303,8 @@ def snap_template(outline):
     for e in outline.examples:
         ex.append((u"%s" % e.name, [u"%s" % t for t in e.tags], list(e.table.headings),
                    [(list(r.cells), r.line) for r in e.table.rows]))
-    return (u"%s" % outline.name, [u"%s" % t for t in outline.tags], snap_steps(outline.steps), ex, outline.line)
+    bg = snap_steps(outline.background.steps) if outline.background is not None else None
+    return (u"%s" % outline.name, [u"%s" % t for t in outline.tags], snap_steps(outline.steps), ex, outline.line, bg)
 
 
 def first_field_diff(got, want):
@@ -275,6 +335,8 @@ def first_field_diff(got, want):
                 return "step-table-heading", g[3][0], w[3][0]
             if g[3][1] != w[3][1]:
                 return "step-table-cell", g[3][1], w[3][1]
+    if "bg_alts" in want and got.get("bg", []) not in want["bg_alts"]:
+        return "background-step", got.get("bg"), want["bg_alts"][0]
     return None
 
 
@@ -373,6 +435,15 @@ def build_outline(tmpl, blocks):
         line += 2 + len(b["rows"])
     outline = ScenarioOutline(u"api.feature", 4, u"Scenario Outline", tmpl["name"], tags=list(tmpl["tags"]),
                               steps=steps, examples=examples)
+    if tmpl.get("bg"):
+        from behave.model import Background
+        bsteps = []
+        for kw, name, text, table in tmpl["bg"]:
+            tb = Table(list(table[0]), line=3)
+            for i, r in enumerate(table[1]):
+                tb.add_row(list(r), 4 + i)
+            bsteps.append(Step(u"api.feature", 2, kw, kw.lower(), name, text=Text(text, u"text/plain", 3), table=tb))
+        outline.background = Background(u"api.feature", 1, u"Background", u"", steps=bsteps)
     return outline, row_lines
 
 
@@ -391,6 +462,7 @@ def run_feature(feature):
         reg.add_step_definition("step", u"a step with{rest}", _step_any)
         reg.add_step_definition("step", u"a text", _step_any)
         reg.add_step_definition("step", u"a table", _step_any)
+        reg.add_step_definition("step", u"a background{rest}", _step_any)
         _STATE["config"], _STATE["reg"] = cfg, reg
     _STATE["calls"] = 0
     runner = ModelRunner(_STATE["config"], [feature], step_registry=_STATE["reg"])
@@ -428,8 +500,11 @@ def check_outline(case):
     """case = (mask, blocks, schema_id); blocks = ((order, tagged, ((va, vb), ...)), ...)"""
     mask, blocks_spec, schema_id = case[:3]
     special = case[3] if len(case) > 3 else 0
+    combo = case[4] if len(case) > 4 else 0
+    bg = case[5] if len(case) > 5 else 0
     schema = SCHEMAS[schema_id]
-    tmpl = template(mask, special=special)
+    tmpl = template(mask, special=special, combo=combo, bg=bg)
+    nsteps = len(tmpl["steps"]) + len(tmpl.get("bg") or ())
     blocks = [block_model(b, i) for i, b in enumerate(blocks_spec)]
     want = ref_expand(tmpl, blocks, schema)
     per_mode = []
@@ -446,6 +521,22 @@ def check_outline(case):
                 if mode == "parsed":
                     feature, outline, lines, text = parse_outline(tmpl, blocks)
                     row_lines = lines["rows"]
+                    want_m = want
+                    parsed_steps = snap_steps(outline.steps)
+                    if parsed_steps != [tuple(st) for st in tmpl["steps"]]:
+                        # the PARSER did not deliver the template as written (not an expansion matter): reported
+                        # under its own descriptor; the expansion is then judged against the template as parsed
+                        k = [a != tuple(b) for a, b in zip(parsed_steps, tmpl["steps"])].index(True)
+                        fld = ["keyword", "name", "doc-string", "table"][[x != y for x, y in
+                                                                          zip(parsed_steps[k], tmpl["steps"][k])].index(True)]
+                        layout = ("doc-string-after-table" if k in tmpl.get("table_first", ()) else
+                                  "doc-string-before-table" if (tmpl["steps"][k][2] is not None and
+                                                                tmpl["steps"][k][3] is not None) else "single-decoration")
+                        v.append(({"subcheck": "template-parse", "clause": "step-not-parsed-as-written", "field": fld,
+                                   "layout": layout},
+                                  "template step #%d parsed as %r, written as %r" % (k + 1, parsed_steps[k],
+                                                                                      tuple(tmpl["steps"][k]))))
+                        want_m = ref_expand(dict(tmpl, steps=parsed_steps), blocks, schema)
                     if outline.line != lines["outline"] or [e.line for e in outline.examples] != lines["examples"]:
                         v.append((dict(base, clause="entity-lines"),
                                   "outline/examples lines %r %r, rendered at %r %r"
@@ -454,6 +545,7 @@ def check_outline(case):
                 else:
                     outline, row_lines = build_outline(tmpl, blocks)
                     feature = None
+                    want_m = want
                 before = snap_template(outline)
                 scenarios = list(outline.scenarios)
             except Exception as e:
@@ -462,7 +554,7 @@ def check_outline(case):
                 obs.append((mode, "exc", type(e).__name__))
                 continue
             obs.append((mode, [sorted(snap_scenario(s).items()) for s in scenarios]))
-            v_exp = compare_expansion(scenarios, want, row_lines, outline, base, "%s outline" % mode)
+            v_exp = compare_expansion(scenarios, want_m, row_lines, outline, base, "%s outline" % mode)
             v += v_exp
             template_ok = snap_template(outline) == before
             if not template_ok:
@@ -481,10 +573,10 @@ def check_outline(case):
                     v.append((dict(base, clause="template-changed-by-run"),
                               "template before %r, after the run %r" % (before, after_run)))
                 if not v_exp:
-                    v += compare_expansion(ran, want, row_lines, outline, dict(base, clause_when="after-run"),
+                    v += compare_expansion(ran, want_m, row_lines, outline, dict(base, clause_when="after-run"),
                                            "parsed outline after a run")
                 st = [s.status.name for s in ran]
-                if failed or any(x != "passed" for x in st) or calls != 3 * len(want):
+                if failed or any(x != "passed" for x in st) or calls != nsteps * len(want):
                     v.append((dict(base, clause="run-of-generated-scenarios"),
                               "run failed=%r, statuses %r, %d step calls for %d rows" % (failed, st, calls, len(want))))
                 obs.append(("run", failed, st, calls))
@@ -554,12 +646,14 @@ def slots(shape):
                 out.append((("cell", bi, ri, ci), VALUES[1:]))
     out.append((("schema",), (1, 2)))
     out.append((("special",), (1,)))
+    out.append((("combo",), (1, 2, 3)))
+    out.append((("bg",), (1, 2)))
     return out
 
 
 def apply_devs(shape, devs):
     blocks = [[0, 0, [[VALUES[0], VALUES[0]] for _ in range(nr)], 0] for nr in shape]
-    schema = special = 0
+    schema = special = combo = bg = 0
     for slot, val in devs:
         if slot[0] == "order":
             blocks[slot[1]][0] = val
@@ -571,9 +665,13 @@ def apply_devs(shape, devs):
             blocks[slot[1]][3] = val
         elif slot[0] == "special":
             special = val
+        elif slot[0] == "combo":
+            combo = val
+        elif slot[0] == "bg":
+            bg = val
         else:
             schema = val
-    return tuple((o, t, tuple(tuple(r) for r in rows), bn) for o, t, rows, bn in blocks), schema, special
+    return tuple((o, t, tuple(tuple(r) for r in rows), bn) for o, t, rows, bn in blocks), schema, special, combo, bg
 
 
 def deviations(shape, k):
@@ -596,12 +694,12 @@ def outline_cases(masks, maxdev, mindev=0, few_masks_for_independent=False):
     for k in range(mindev, maxdev + 1):
         for shape in SHAPES:
             for devs in deviations(shape, k):
-                blocks, schema, special = apply_devs(shape, devs)
+                blocks, schema, special, combo, bg = apply_devs(shape, devs)
                 use = masks
                 if few_masks_for_independent and _mask_independent(devs):
                     use = [m for m in masks if m in FEW_MASKS]
                 for mask in use:
-                    yield (mask, blocks, schema, special)
+                    yield (mask, blocks, schema, special, combo, bg)
 
 
 def exhaustive_value_cases(mask, max_rows):
